@@ -18,7 +18,7 @@ import (
 
 type c17l3 struct{}
 
-func init() { core.Register(c17l3{}) }
+func init()              { core.Register(c17l3{}) }
 func (c17l3) ID() string { return "C17L3" }
 
 func (c17l3) Plan(tier string) core.Plan {
@@ -37,8 +37,8 @@ func (c17l3) Meta() core.Meta {
 			"oracle": "serial pre-pass in the traced process on twin objects; snapshots of shared buffers"},
 		Assumptions: []string{"one or two preemptions per experiment", "preemption points are library instructions (PC inside the module's text); instructions in the Go runtime are stepped through but never chosen",
 			"a traced process that cannot be driven (lost sync, watchdog) is counted inconclusive, never a violation"},
-		FaultKinds: []string{"preempt-in-asm", "preempt-in-go-glue", "double-preemption", "same-ciphertext-both-open", "history:open-forged"},
-		ProbeNames: []string{"preempted-inside:sm4.sealAsm", "preempted-inside:sm4.openAsm", "preempted-inside:sm4.cryptoBlockAsm", "preempted-inside:sm4.expandKeyAsm", "inconclusive", "calibrations"},
+		FaultKinds: []string{"preempt-in-asm", "preempt-in-go-glue", "double-preemption", "same-ciphertext-both-open", "history:open-forged", "preempt-after-global-write"},
+		ProbeNames: []string{"global-write-points", "preempted-inside:sm4.sealAsm", "preempted-inside:sm4.openAsm", "preempted-inside:sm4.cryptoBlockAsm", "preempted-inside:sm4.expandKeyAsm", "inconclusive", "calibrations"},
 		StepUnit:   "single-stepped instructions",
 	}
 }
@@ -88,7 +88,13 @@ func (c17l3) Decode(raw json.RawMessage) (core.Script, error) {
 	return &s, nil
 }
 
-var l3Calib = map[string]int{}
+type l3CalibEntry struct {
+	n      int
+	writes []int
+	names  []string
+}
+
+var l3Calib = map[string]l3CalibEntry{}
 
 func l3Class(s *c17l3Script, op l3Op) string {
 	msgLen, aad := s.A.PtLen, s.A.AadLen
@@ -101,13 +107,18 @@ func l3Class(s *c17l3Script, op l3Op) string {
 // l3Calibrate measures how many library instructions client 0 (A) or 1 (B) executes in
 // its call, in the very world of this script.
 func l3Calibrate(s *c17l3Script, client int, res *core.Result) (int, string) {
+	e, why := l3CalibrateFull(s, client, res)
+	return e.n, why
+}
+
+func l3CalibrateFull(s *c17l3Script, client int, res *core.Result) (l3CalibEntry, string) {
 	op := s.A
 	if client == 1 {
 		op = s.B
 	}
 	key := l3Class(s, op)
-	if n, ok := l3Calib[key]; ok {
-		return n, ""
+	if e, ok := l3Calib[key]; ok {
+		return e, ""
 	}
 	o := l3RunIsolated(s, 0, 0, client)
 	res.Steps += o.Steps
@@ -117,10 +128,11 @@ func l3Calibrate(s *c17l3Script, client int, res *core.Result) (int, string) {
 			raw, _ := json.Marshal(s)
 			fmt.Fprintf(os.Stderr, "L3DEBUG calibration failed client=%d %s script=%s\n", client, o.Inconcl, raw)
 		}
-		return 0, fmt.Sprintf("calibration failed: inconcl=%q skip=%q crash=%q ended=%v n=%d", o.Inconcl, o.Skip, o.Crash, o.AEnded, o.NA)
+		return l3CalibEntry{}, fmt.Sprintf("calibration failed: inconcl=%q skip=%q crash=%q ended=%v n=%d", o.Inconcl, o.Skip, o.Crash, o.AEnded, o.NA)
 	}
-	l3Calib[key] = o.NA
-	return o.NA, ""
+	e := l3CalibEntry{o.NA, o.GlobalWrites, o.GlobalNames}
+	l3Calib[key] = e
+	return e, ""
 }
 
 func (c17l3) Execute(sc core.Script, keep bool) *core.Result {
@@ -138,7 +150,12 @@ func (c17l3) Execute(sc core.Script, keep bool) *core.Result {
 	}
 	k, k2 := s.K, s.K2
 	if k <= 0 {
-		n, why := l3Calibrate(s, 0, res)
+		ce, why := l3CalibrateFull(s, 0, res)
+		n := ce.n
+		if len(ce.writes) > 0 {
+			res.Probes["global-write-points"] += len(ce.writes)
+			res.Unclaimed = append(res.Unclaimed, "L3: "+s.A.Kind+" writes package-level data: "+fmt.Sprint(ce.names))
+		}
 		if n == 0 {
 			res.Probes["inconclusive"]++
 			res.Unclaimed = append(res.Unclaimed, "L3 inconclusive: "+why)
@@ -147,6 +164,11 @@ func (c17l3) Execute(sc core.Script, keep bool) *core.Result {
 			return res
 		}
 		k = 1 + s.KPm*n/1000
+		if len(ce.writes) > 0 && s.KPm%2 == 0 {
+			// steer: park A shortly after an instruction that changed package-level data
+			k = ce.writes[(s.KPm/2)%len(ce.writes)] + 1 + (s.KPm/7)%24
+			res.Faults["preempt-after-global-write"]++
+		}
 		if k >= n {
 			k = n - 1
 		}
